@@ -187,16 +187,45 @@ func (ex *Exec) callbackCall(fr *Frame, st *State, c *ssa.CallCommon, fv Value, 
 	return ex.havocResults(st, c.Signature().Results(), "cb")
 }
 
-func (ex *Exec) emit(st *State, t Term) {
+func (ex *Exec) emittedGet(st *State, et types.Type) string {
 	key := "$emitted"
-	srt := sx("Array", ex.vc.tc.sortOf(t.T), "Int")
-	cur, ok := st.ghost[key]
-	if !ok {
-		ex.vc.heapT[key] = heapComp{sort: srt}
-		ex.vc.declareConst("G0_xemitted", srt)
-		cur = "G0_xemitted"
+	srt := sx("Array", ex.vc.tc.sortOf(et), "Int")
+	if cur, ok := st.ghost[key]; ok {
+		return cur
 	}
-	st.ghost[key] = ex.vc.define("emitted", srt, sx("store", cur, t.S, sx("+", sx("select", cur, t.S), "1")))
+	ex.vc.heapT[key] = heapComp{sort: srt}
+	n := ex.initialComp(key)
+	st.ghost[key] = n
+	return n
+}
+
+func (ex *Exec) emit(st *State, t Term) {
+	cur := ex.emittedGet(st, t.T)
+	srt := sx("Array", ex.vc.tc.sortOf(t.T), "Int")
+	st.ghost["$emitted"] = ex.vc.define("emitted", srt, sx("store", cur, t.S, sx("+", sx("select", cur, t.S), "1")))
+}
+
+// emitCount evaluates an emits clause "x T :: count(x)": returns the bound declaration, the bound
+// variable, the count term and the element type.
+func (ex *Exec) emitCount(env *SpecEnv, e *Clause) (decl, bv, cnt string, et types.Type) {
+	q, ok := e.Expr.(EQuant)
+	if !ok || len(q.Vars) != 1 {
+		sfail("emits clause must have the form 'emits x T :: count(x)'")
+	}
+	et = env.resolveType(q.Vars[0].Type)
+	ex.vc.counter++
+	bv = fmt.Sprintf("q_%s_%d", q.Vars[0].Name, ex.vc.counter)
+	n := env.sub()
+	n.vars[q.Vars[0].Name] = Term{S: bv, T: et}
+	ex.vc.noDefine++
+	c := func() Term {
+		defer func() { ex.vc.noDefine-- }()
+		return n.evalTerm(q.Body, types.Typ[types.Int])
+	}()
+	if isBoolType(c.T) {
+		c = Term{S: sIte(c.S, "1", "0"), T: types.Typ[types.Int]}
+	}
+	return "(" + bv + " " + ex.vc.tc.sortOf(et) + ")", bv, c.S, et
 }
 
 func (ex *Exec) inlineClosure(fr *Frame, st *State, f Closure, args []Value) Value {
@@ -405,6 +434,19 @@ func (ex *Exec) applyContract(fr *Frame, st *State, fn *ssa.Function, ct *Contra
 		}
 		ex.assume(st, post.evalTerm(e.Expr, types.Typ[types.Bool]).S)
 	}
+	// callee emissions through a callback that the caller passed on: on success exactly the declared counts
+	for _, e := range ct.Emits {
+		decl, bv, cnt, et := ex.emitCount(ex.contractEnv(old, nil, fn, ct, names, args), e)
+		cur := ex.emittedGet(st, et)
+		srt := sx("Array", ex.vc.tc.sortOf(et), "Int")
+		nw := ex.vc.fresh("emitted", srt)
+		exact := fmt.Sprintf("(forall (%s) (! (= (select %s %s) (+ (select %s %s) %s)) :pattern ((select %s %s))))", decl, nw, bv, cur, bv, cnt, nw, bv)
+		if ev, ok := post.vars["err"]; ok {
+			exact = sImp(sEq(ev.(Term).S, "Dyn_nil"), exact)
+		}
+		ex.assume(st, exact)
+		st.ghost["$emitted"] = nw
+	}
 	return res
 }
 
@@ -416,6 +458,7 @@ func (ex *Exec) applyPureContract(st *State, fn *ssa.Function, ct *Contract, arg
 	if rd := ct.Opts["reads"]; rd != "" {
 		for _, c := range strings.Split(rd, ",") {
 			c = strings.TrimSpace(c)
+			ex.ensureComp(st, c)
 			sorts = append(sorts, ex.compSort(c))
 			actuals = append(actuals, ex.compTerm(st, c))
 		}
@@ -455,6 +498,38 @@ func (ex *Exec) applyPureContract(st *State, fn *ssa.Function, ct *Contract, arg
 		ex.assume(st, sImp(sAnd(pres...), env.evalTerm(e.Expr, types.Typ[types.Bool]).S))
 	}
 	return res
+}
+
+// ensureComp registers a heap component given by name "pkg.Type.field".
+func (ex *Exec) ensureComp(st *State, comp string) {
+	if _, ok := ex.vc.heapT[comp]; ok {
+		return
+	}
+	i := strings.LastIndex(comp, ".")
+	j := strings.LastIndex(comp[:i], ".")
+	if i < 0 || j < 0 {
+		sfail("bad component name %q", comp)
+	}
+	pk := ex.prog.typesPkgByRel(comp[:j])
+	if pk == nil {
+		sfail("unknown package in component %q", comp)
+	}
+	tn, ok := pk.Scope().Lookup(comp[j+1 : i]).(*types.TypeName)
+	if !ok {
+		sfail("unknown type in component %q", comp)
+	}
+	s, ok := tn.Type().Underlying().(*types.Struct)
+	if !ok {
+		sfail("component %q: not a struct", comp)
+	}
+	for k := 0; k < s.NumFields(); k++ {
+		if s.Field(k).Name() == comp[i+1:] {
+			c, ft := ex.heapCompName(tn.Type(), k)
+			ex.heapGet(st, c, ft)
+			return
+		}
+	}
+	sfail("component %q: no such field", comp)
 }
 
 // modTargetComp resolves a modifies target to a heap component statically (no state needed).
